@@ -19,7 +19,7 @@ use {
     failspot::failspot,
     nix::{
         errno::Errno,
-        sys::{ptrace, signal, wait},
+        sys::{ptrace, signal},
     },
     procfs_core::{
         process::{MMPermissions, ProcState, Stat},
@@ -249,33 +249,48 @@ impl PtraceDumper {
         // This may fail if the thread has just died or debugged.
         ptrace::attach(pid).map_err(|e| AttachErr(child, e))?;
         loop {
-            match wait::waitpid(pid, Some(wait::WaitPidFlag::__WALL)) {
-                Ok(status) => {
-                    let wait::WaitStatus::Stopped(_, status) = status else {
-                        return Err(DumperError::WaitPidError(
-                            child,
-                            nix::errno::Errno::UnknownErrno,
-                        ));
-                    };
-
-                    // Any signal will stop the thread, make sure it is SIGSTOP. Otherwise, this
-                    // signal will be delivered after PTRACE_DETACH, and the thread will enter
-                    // the "T (stopped)" state.
-                    if status == nix::sys::signal::SIGSTOP {
-                        break;
-                    }
-
-                    // Signals other than SIGSTOP that are received need to be reinjected,
-                    // or they will otherwise get lost.
-                    if let Err(err) = ptrace::cont(pid, status) {
-                        return Err(DumperError::WaitPidError(child, err));
-                    }
+            // Use the raw call: `nix::sys::wait::waitpid` fails with EINVAL for a stop caused by a
+            // real-time signal (its `Signal` type only knows the standard signals), and such a
+            // signal could then neither be recognised nor re-injected.
+            let mut status: libc::c_int = 0;
+            // SAFETY: plain FFI call with a valid out-pointer
+            let res = unsafe { libc::waitpid(child, &mut status, libc::__WALL) };
+            if res == -1 {
+                let e = Errno::last();
+                if e == Errno::EINTR {
+                    continue;
                 }
-                Err(Errno::EINTR) => continue,
-                Err(e) => {
-                    ptrace_detach(child)?;
-                    return Err(DumperError::WaitPidError(child, e));
-                }
+                ptrace_detach(child)?;
+                return Err(DumperError::WaitPidError(child, e));
+            }
+            if !libc::WIFSTOPPED(status) {
+                return Err(DumperError::WaitPidError(
+                    child,
+                    nix::errno::Errno::UnknownErrno,
+                ));
+            }
+            let stop_signal = libc::WSTOPSIG(status);
+
+            // Any signal will stop the thread, make sure it is SIGSTOP. Otherwise, this
+            // signal will be delivered after PTRACE_DETACH, and the thread will enter
+            // the "T (stopped)" state.
+            if stop_signal == libc::SIGSTOP {
+                break;
+            }
+
+            // Signals other than SIGSTOP that are received need to be reinjected,
+            // or they will otherwise get lost.
+            // SAFETY: plain FFI call, the signal number is passed in the data argument
+            let res = unsafe {
+                libc::ptrace(
+                    libc::PTRACE_CONT,
+                    child,
+                    std::ptr::null_mut::<libc::c_void>(),
+                    stop_signal as usize as *mut libc::c_void,
+                )
+            };
+            if res == -1 {
+                return Err(DumperError::WaitPidError(child, Errno::last()));
             }
         }
         #[cfg(any(target_arch = "x86", target_arch = "x86_64"))]
